@@ -145,8 +145,54 @@ def family():
     return cases
 
 
+def samename_case(rng):
+    """one name used by several statements of one element — as the condition, the iterable *and* the loop variable, the content or
+    replacement, the omit-tag flag, an attribute value, a definition of itself — with an outer binding of that name (a variable, an
+    enclosing definition or an enclosing loop on the same name): every statement must see the binding its position in the order
+    define / condition / repeat / content prescribes"""
+    n = rng.choice(['x', 'item', 'v'])
+    stm = []
+    if rng.random() < 0.3:
+        stm.append(('tal:define', '%s %s' % (n, rng.choice([n, '%s[:1]' % n, 'list(%s) + [\'z\']' % n]))))
+    if rng.random() < 0.6:
+        stm.append(('tal:condition', rng.choice([n, n, 'len(%s)' % n, 'not: %s' % n])))
+    if rng.random() < 0.8:
+        stm.append(('tal:repeat', '%s %s' % (n, n)))
+    k = rng.randrange(4)
+    if k == 0:
+        stm.append(('tal:content', rng.choice([n, 'text %s' % n, 'structure %s' % n])))
+    elif k == 1:
+        stm.append(('tal:replace', rng.choice([n, 'text %s' % n])))
+    if rng.random() < 0.25:
+        stm.append(('tal:omit-tag', rng.choice([n, 'not: %s' % n])))
+    if rng.random() < 0.4:
+        stm.append(('tal:attributes', 'title %s' % n))
+    rng.shuffle(stm)
+    el = '<li class="s"' + ''.join(' %s="%s"' % kv for kv in stm) + '>[${%s}]</li>' % n
+    rows = [rng.choice([['a', 'b'], ['c'], [], ['d', None], [['e', 'f'], ['g']], ['<&>']]) for _ in range(rng.randint(1, 3))]
+    shape = rng.randrange(3)
+    if shape == 0:
+        src = '<ul tal:repeat="%s rows">%s</ul>(${%s | \'U\'})' % (n, el, n)
+        vars_ = [['rows', to_spec(rows)]]
+    elif shape == 1:
+        src = '<ul tal:define="%s rows[0]">%s(${%s})</ul>' % (n, el, n)
+        vars_ = [['rows', to_spec(rows)]]
+    else:
+        src = '<ul>%s</ul>(${%s})' % (el, n)
+        vars_ = [[n, to_spec(rows[0])]]
+    return {'src': src, 'vars': vars_, 'objs': []}
+
+
+def to_spec(v):
+    if isinstance(v, list):
+        return {'list': [to_spec(x) for x in v]}
+    if isinstance(v, str):
+        return {'str': v}
+    return v
+
+
 def correspondence(ctx):
-    gen = []
+    gen = [samename_case(ctx.rng) for _ in range(ctx.budget(400, 15000))]
     for _ in range(ctx.budget(1500, 60000)):
         g = talgen.TalGen(ctx.rng, depth=ctx.rng.choice([1, 2, 3]))
         gen.append(g.template())
